@@ -4,6 +4,7 @@ C09 — removals remove exactly what they name and nothing else.
 import Cacache.Lemmas.Stream
 import Cacache.Props.C04
 import Cacache.Props.C05
+import Cacache.Lemmas.CodecLaws
 
 namespace Cacache.C09
 open Prog
@@ -34,18 +35,19 @@ theorem remove_appends_tombstone (key : Bytes) (b0 : Bytes) (fs : FS)
   exact ⟨tm, h⟩
 
 /-- … after which the key — and only that key — is not found. -/
-theorem removed_key_absent (L : (codec cfg).Laws) (key : Bytes) (b0 : Bytes) (tm : Nat) :
+theorem removed_key_absent {W : Rec → Prop} (L : (codec cfg).Laws W) (key : Bytes) (b0 : Bytes) (tm : Nat)
+    (hW : W (mkRec key {} tm)) :
     (codec cfg).find (b0 ++ (codec cfg).frame (mkRec key {} tm)) key = none := by
   have hcls : (codec cfg).cls (mkRec key {} tm) = .tomb := rfl
   have hk : (codec cfg).key (mkRec key {} tm) = key := rfl
-  have := C05.lookup_absent_after_removal (codec cfg) L b0 [] [] (mkRec key {} tm) hcls (by simp)
+  have := C05.lookup_absent_after_removal (codec cfg) L b0 [] [] (mkRec key {} tm) (by simpa using hW) hcls (by simp)
   rw [hk] at this
   simpa [Codec.appendAll] using this
 
-theorem other_keys_unaffected (L : C04.TornLaws (codec cfg)) (key k' : Bytes) (b0 : Bytes) (tm : Nat)
-    (hs : (codec cfg).Settled b0) (hne : key ≠ k') :
+theorem other_keys_unaffected {W : Rec → Prop} (L : C04.TornLaws (codec cfg) W) (key k' : Bytes)
+    (b0 : Bytes) (tm : Nat) (hW : W (mkRec key {} tm)) (hs : (codec cfg).Settled b0) (hne : key ≠ k') :
     (codec cfg).find (b0 ++ (codec cfg).frame (mkRec key {} tm)) k' = (codec cfg).find b0 k' := by
-  have := C04.torn_lookup_other_key (codec cfg) L b0 hs (mkRec key {} tm)
+  have := C04.torn_lookup_other_key (codec cfg) L b0 hs (mkRec key {} tm) hW
     ((codec cfg).frame (mkRec key {} tm)).length k' (by exact hne)
   simpa using this
 
@@ -162,5 +164,20 @@ theorem removeTree_removes (fs : FS) (p q : Path) (hd : fs.get p = some .dir)
 /-- … and leaves a usable cache: clearing aims only inside the cache directory (C15) and a write
 afterwards runs the normal write program (which recreates `tmp`, `content-v2`, `index-v5`). -/
 theorem clear_confined : AllCalls (Call.within [cache]) (clear cache) := clear_within cache
+
+/-! ### the concrete codec -/
+
+/-- After a removal's tombstone the key is absent — cacache's own format, any hash function. -/
+theorem removed_key_absent_cacache (key : Bytes) (hk : Json.utf8Valid key = true) (b0 : Bytes) (tm : Nat)
+    (htm : tm ≤ timeMax) :
+    (codec cfg).find (b0 ++ (codec cfg).frame (mkRec key {} tm)) key = none :=
+  removed_key_absent cfg (codec_laws cfg) key b0 tm (mkRec_wf key {} tm (optsWF_default hk) htm)
+
+/-- … and every other key is found exactly as before. -/
+theorem other_keys_unaffected_cacache (key k' : Bytes) (hk : Json.utf8Valid key = true) (b0 : Bytes)
+    (tm : Nat) (htm : tm ≤ timeMax) (hs : (codec cfg).Settled b0) (hne : key ≠ k') :
+    (codec cfg).find (b0 ++ (codec cfg).frame (mkRec key {} tm)) k' = (codec cfg).find b0 k' :=
+  other_keys_unaffected cfg (codec_tornLaws cfg) key k' b0 tm
+    (mkRec_wf key {} tm (optsWF_default hk) htm) hs hne
 
 end Cacache.C09
